@@ -272,6 +272,19 @@ func matchKnown(k knownFinding, v sym.Violation) bool {
 func cmdCheck(prop, tier string) int {
 	start := time.Now()
 	specs := specsFor(prop, tier)
+	// development aid (never set by a registered command): run only the named harnesses; the
+	// evidence of such a run says so through its harness list
+	if only := os.Getenv("VERIF_ONLY"); only != "" {
+		var sel []*HarnessSpec
+		for _, sp := range specs {
+			for _, n := range strings.Split(only, ",") {
+				if sp.Name == n {
+					sel = append(sel, sp)
+				}
+			}
+		}
+		specs = sel
+	}
 	if len(specs) == 0 {
 		fmt.Fprintln(os.Stderr, "no harness registered for", prop)
 		return 2
